@@ -112,3 +112,10 @@ CHECKS["C17"]["text"] += " The parser as an Iterator: nth, skip, count, last, st
 CHECKS["C18"]["text"] += " Code level, real tables: every code point as search key of the anchored look-ups (derived-property tables, context tables, Bidi_Class, width mapping, space separators) through the per-code-point trace judged by TLC."
 for _id in ("C01", "C06", "C08"):
     CHECKS[_id]["text"] += " Expanders: the code points of maximal NFKC / NFC / lower-case expansion (found by computation) repeated 1..64 times."
+# seventh round
+CHECKS["C13"]["text"] += (" Rule functions may be re-entrant: in the replay the recording closure is also implemented on top of a nested stabilize of its own "
+                          "argument and after a nested three-application stabilize plus a Nickname enforcement; result and call sequence must not change.")
+CHECKS["C04"]["text"] += " A fifth alphabet puts ZWNJ / ZWJ next to virama, transparent marks and joining letters inside usernames."
+CHECKS["C15"]["text"] += (" The model's three attribute values stand for real Bidi_Class names through an injective renaming that rotates through all 23 classes, "
+                          "so every class name must come back from the real generator as itself. Beyond the property: Version.tla (UNICODE_VERSION generator), "
+                          "every text up to length 5/6 over 6 characters replayed, disagreements recorded as notes only.")
